@@ -5,12 +5,13 @@ Helper lemmas for C18: the loop of `LocationPath.evalForward`: node sets, empty 
 namespace PathSpec
 
 /-- the update of `valid` in one round of the loop -/
+def preValid (g : Graph) (old valid nodes : List Node) : Option Bool → List Node
+  | some qi => union valid (findIntermediateNodes g old nodes qi)
+  | none => union valid nodes
+
 def nextValid (g : Graph) (old valid nodes : List Node) (search : Option Bool) : List Node :=
-  let v1 := match search with
-    | some qi => union valid (findIntermediateNodes g old nodes qi)
-    | none => union valid nodes
-  let v2 := union v1 nodes
-  inter v2 (findReachableSubset g v2 nodes)
+  inter (union (preValid g old valid nodes search) nodes)
+    (findReachableSubset g (union (preValid g old valid nodes search) nodes) nodes)
 
 theorem forwardLoop_cons (g : Graph) (mode : Mode) (ax : Axis) (test : Str) (op : OptPred) (rest : Steps)
     (old valid : List Node) (wc : Bool) :
